@@ -210,7 +210,7 @@ fn main() {
         finish(&rep, &cli);
     }
     let thorough = cli.tier == "thorough";
-    let groups: Vec<&str> = if thorough { vec![] } else { vec!["STD", "FLAG1", "DIGITS", "SIGN", "SPECIAL", "LZERO", "CASE", "RADIX"] };
+    let groups: Vec<&str> = if thorough { vec![] } else { vec!["STD", "FLAG1", "DIGITS", "SIGN", "SPECIAL", "LZERO", "CASE", "RADIX", "TWIN"] };
     let cat: Vec<CatFmt> = catalogue(&groups).into_iter().filter(eligible).collect();
     let depth = if thorough { 6 } else { 5 };
     let idx: Vec<usize> = (0..cat.len()).collect();
